@@ -660,7 +660,7 @@ func runSearch(w *world, fracs fracmanager.List, si int, s searchSpec, r *rng.R,
 		if w.big {
 			stripConv(t)
 		}
-		qpr, err := evalTree(t, leaves, s)
+		qpr, err := guard(func() (*seq.QPR, error) { return evalTree(t, leaves, s) })
 		if err != nil {
 			viol("merge-error", "merging/conversion failed: "+err.Error(), map[string]any{"tree": t.String()})
 			continue
@@ -669,7 +669,7 @@ func runSearch(w *world, fracs fracmanager.List, si int, s searchSpec, r *rng.R,
 	}
 	{ // the real Searcher over all fractions
 		fpi := r.Intn(3)
-		qpr, err := fracbuild.Search(fracs, q, fpi)
+		qpr, err := guard(func() (*seq.QPR, error) { return fracbuild.Search(fracs, q, fpi) })
 		if err != nil {
 			viol("search-error", "Searcher.SearchDocs failed: "+err.Error(), map[string]any{"fractions_per_iteration": fpi})
 		} else {
@@ -694,6 +694,16 @@ func runSearch(w *world, fracs fracmanager.List, si int, s searchSpec, r *rng.R,
 			emitHist(w, s, si, ti, run.t, run.qpr, live, baseInput, res)
 		}
 	}
+}
+
+// guard turns a panic of the code under test into an error (reported with the search as replay input)
+func guard(f func() (*seq.QPR, error)) (q *seq.QPR, err error) {
+	defer func() {
+		if p := recover(); p != nil {
+			q, err = nil, fmt.Errorf("panic: %v", p)
+		}
+	}()
+	return f()
 }
 
 func stripConv(t *tree) {
@@ -1079,6 +1089,7 @@ func main() {
 	for _, res := range results {
 		flush(res)
 	}
+	flush(emitKeys(*seed, *tier))
 	w.Extra["float_policy"] = "exact worlds (3 of 4): values k/16, sums bit-exact, avg correctly rounded; tolerant worlds: general decimals, sum/avg within 1e-9 of the sum of magnitudes"
 	if err := w.Close(); err != nil {
 		panic(err)
@@ -1117,6 +1128,10 @@ func doReplay(path string, flush func(*result)) {
 		f, _ := in[k].(float64)
 		return int(f)
 	}
+	if _, ok := in["token_hex"]; ok {
+		flush(emitKeys(seed, rp.Tier))
+		return
+	}
 	wi, si := num("world"), num("search")
 	ti, hasT := in["tree_index"]
 	ai := num("agg_index")
@@ -1139,4 +1154,50 @@ func doReplay(path string, flush func(*result)) {
 		fmt.Printf("  %s: %s\n", c.class, j)
 	}
 	flush(res)
+}
+
+// ---------------------------------------------------------------- AggBin key codec
+
+func emitKeys(seed uint64, tier string) *result {
+	res := &result{}
+	r := rng.New(seed*31337 + 99)
+	n := 150
+	if tier == "thorough" {
+		n = 2000
+	}
+	alphabet := []byte("|ab0 9-\"\xc3\xa9:\x00")
+	for i := 0; i < n; i++ {
+		var mid uint64
+		switch r.Intn(5) {
+		case 0:
+			mid = 0
+		case 1:
+			mid = uint64(r.Intn(100))
+		case 2:
+			mid = 1<<63 - 1 - uint64(r.Intn(3))
+		default:
+			mid = r.U64() >> uint(r.Intn(63)+1)
+		}
+		tok := make([]byte, r.Intn(8))
+		for j := range tok {
+			tok[j] = alphabet[r.Intn(len(alphabet))]
+		}
+		in := map[string]any{"mid": mid, "token_hex": fmt.Sprintf("%x", tok)}
+		var key string
+		var back seq.AggBin
+		var perr any
+		func() {
+			defer func() { perr = recover() }()
+			key = seq.VerifC06AggBinToKey(seq.AggBin{MID: seq.MID(mid), Token: string(tok)})
+			back = seq.VerifC06AggBinFromKey(key)
+		}()
+		if perr != nil {
+			res.viols = append(res.viols, violation{"aggbin-key-panic", fmt.Sprintf("toKey/fromKey panics: %v", perr), in})
+			continue
+		}
+		term := fmt.Sprintf("CKey %d %s %s %d %s", mid, casefile.Bytes(tok), casefile.Bytes([]byte(key)), uint64(back.MID), casefile.Bytes([]byte(back.Token)))
+		res.cases = append(res.cases, pending{term, "aggbin-key", strings.Contains(string(tok), "|"), in,
+			map[string]any{"key_hex": fmt.Sprintf("%x", key), "back_mid": uint64(back.MID), "back_token_hex": fmt.Sprintf("%x", back.Token)}})
+	}
+	return res
 }
